@@ -549,7 +549,7 @@ class DocGen:
             return out
         if location in ("FIELD", "FRAGMENT_SPREAD", "INLINE_FRAGMENT"):
             for dn in ("skip", "include"):
-                if c.maybe(10):
+                if c.maybe(self.o.get("p_skipinclude", 10)):
                     if self.o["vars"] and c.maybe(50):
                         v = self.var_for(ty("Boolean!"), used)
                         self.stat("skipinclude_var")
